@@ -14,7 +14,7 @@ def showErr : Err → String
 def step (_ : Unit) (w : List String) : Unit × List String :=
   match w with
   | "parse" :: args =>
-    match parseCmd Generated.kernprofOptions args with
+    match parseCmdWith Generated.kernprofAllowAbbrev Generated.kernprofOptions args with
     | .ok c =>
       ((), [s!"ok {if c.isModule then "module" else "script"} {c.target} {c.outfile} {if c.opts.lineByLine then 1 else 0} {if c.opts.view then 1 else 0} | "
             ++ " ".intercalate c.argv])
